@@ -360,15 +360,7 @@ func runC05(ctx *runCtx) {
 		sem <- struct{}{}
 		go func(i int) {
 			defer func() { <-sem }()
-			sh, w := "", ""
-			func() {
-				defer func() {
-					if r := recover(); r != nil {
-						sh, w = "panic", fmt.Sprint(r)
-					}
-				}()
-				sh, w = runC05Case(cases[i])
-			}()
+			sh, w := guarded(40*time.Second, func() (string, string) { return runC05Case(cases[i]) })
 			out <- res{i, sh, w}
 		}(i)
 	}
